@@ -414,7 +414,7 @@ HISTORIES = [  # steps that run BEFORE the failing construct; {P} partial names 
     "", "{% for i in (1..3) %}\n{% include 'row_break' %}\n{% endfor %}", "{% for i in (1..3) %}{% include 'row_continue' %}{% endfor %}",
     "{% for i in (1..2) %}{% for j in (1..2) %}{% include 'row_break' %}{% endfor %}{% include 'row_continue' %}{% endfor %}",
     "{% include 'plain' %}", "{% render 'plain' %}", "{% for i in (1..2) %}{% render 'plain' %}{% endfor %}",
-    "{% macro m %}{% include 'plain' %}{% endmacro %}{% call m %}", "{% for i in (1..3) %}{% include 'nested_break' %}{% endfor %}",
+    "{% macro m %}{% render 'plain' %}{% endmacro %}{% call m %}", "{% for i in (1..3) %}{% include 'nested_break' %}{% endfor %}",
     "{% capture c %}{% for i in (1..2) %}{% include 'row_break' %}{% endfor %}{% endcapture %}",
     "{% for i in (1..2) %}{% include 'row_break' with i as k %}{% endfor %}", "{% include 'row_loop' %}",
     "{% liquid for i in (1..3)\n include 'row_continue'\n endfor %}", "{% for i in (1..3) %}{% if i == 2 %}{% break %}{% endif %}{% include 'plain' %}{% endfor %}",
@@ -443,8 +443,10 @@ def program_cases(r: random.Random, tier: str) -> list[tuple[dict[str, str], str
             indent = r.choice(["", "  ", "\t"])
             body = pre + "\n" + hist + "\n" + mid + "\n" + indent + fail + "\nend"
             kind = n % 4
-            if kind == 2 and "break" in fail:
-                kind = 0     # a stray break inside an overriding block is reported at the block tag of the base
+            if kind in (1, 2) and "break" in fail:
+                # a stray break inside an overriding block is reported at the block tag of the base, one at the top
+                # level of an included partial travels to the includer (reported at its include tag, or it ends a loop there)
+                kind = 0
             t = dict(PARTIALS)
             if kind == 0:
                 t["main"] = body
